@@ -550,6 +550,15 @@ impl VerifEnv for SimEnv {
         })
     }
     fn write_file(&self, path: &Path, bytes: &[u8]) -> io::Result<()> {
+        // documented semantics of ZipArchive::extract: create/truncate the file, then copy the data -- not atomic.
+        // Another session scheduled between the two steps sees an empty file.
+        let truncated = self.with(|w| {
+            let now = w.now_ms;
+            let r = w.fs.write(path, Arc::from(Vec::new().into_boxed_slice()), now, None);
+            w.seam(self.session, SeamRec { kind: SeamKind::Write, path: path.to_path_buf(), ok: r.is_ok(), fault: None, content_id: 0, injected: None });
+            r
+        });
+        truncated?;
         self.with(|w| {
             let now = w.now_ms;
             let r = w.fs.write(path, Arc::from(bytes.to_vec().into_boxed_slice()), now, None);
